@@ -111,6 +111,17 @@ Step(e) ==
                               \cup ViewDrift(e, w, kk)
             /\ mcur' = e.curSz /\ mmode' = e.mode
             /\ UNCHANGED <<tid, pad, maxSz, auto>>
+    [] e.ev = "Huge" ->        \* one AllocateOffset above the 1 GiB growth step (the region is never touched; last event of its trace)
+         LET pre == pad + SizeOf(exp, kind)
+             g   == OpGrow("AllocateOffset", e.n, Hdr, mcur, mmode, pre, maxSz, auto, GrowCap)
+         IN /\ Assert(pending = <<>>, <<"Huge while a call is pending", l>>)
+            /\ bad' = bad \cup Flag(~e.panic, "a call within the limit panicked (its bytes are lost)")
+                          \cup Flag(e.panic \/ e.lenNP = SizeOf(exp, kind) + e.n, "LenNoPadding is not the number of bytes written")
+                          \cup Flag(e.panic \/ e.blen = SizeOf(exp, kind) + e.n, "Bytes() differs from what was written")
+            /\ drift' = drift \cup Flag(e.curSz = g.curSz /\ e.mode = g.mode, "capacity/mode differ from the design's growth rule")
+                              \cup Flag(e.panic \/ e.off = pre, "return value differs from the design")
+            /\ mcur' = e.curSz /\ mmode' = e.mode
+            /\ UNCHANGED <<tid, pad, maxSz, auto, kind, exp, pending>>
     [] e.ev = "Reset" ->
          /\ Answered(e, "Reset")
          /\ Assert(e.fv, <<"views do not fit the epoch", l>>)
